@@ -16,7 +16,7 @@ class CheckComparisons(MultiFunction):
     Terminals that are real are RealValue, Zero, and Argument
     (even in complex FEM, the basis functions are real)
     Operations that produce reals are Abs, Real, Imag.
-    Terminals default to complex, and Sqrt, Pow (defensively) imply complex.
+    Terminals default to complex, and Sqrt, Ln, Acos, Asin, Pow (defensively) imply complex.
     Otherwise, operators preserve the type of their operands.
     """
 
@@ -97,6 +97,11 @@ class CheckComparisons(MultiFunction):
         o = self.reuse_if_untouched(o, *ops)
         self.nodetype[o] = "complex"
         return o
+
+    # Like sqrt, these are complex for real arguments outside of their real domain
+    ln = sqrt
+    acos = sqrt
+    asin = sqrt
 
     def power(self, o, base, exponent):
         """Apply to power."""
